@@ -378,7 +378,7 @@ def cases(tier, seed=0):
         cs.append(Case(f'dumpfile_{un}_{pstr(pbc)}_{var_}', h_dumpfile(un, pbc, var_), bind=BIND, budget_s=150, timeout_ms=15000, max_paths=400, descr=f'LAMMPS dump file: units {un}, pbc {pstr(pbc)}, position columns {var_}'))
     cs.append(Case('conversion_tables', h_tables(), concrete_only=True, budget_s=60, descr='exhaustive enumeration of the per-atom column conversion tables (unit key per quantity)'))
     cs.append(Case('table', h_table(), bind=BIND, budget_s=120, timeout_ms=15000, descr='generic table with a column-conversion table'))
-    for cstyle in ('direct', 'Cartesian'):
-        for ss in (False, True):
+    for cstyle in ('direct', 'Cartesian', 'kartesian', 'Direct'):      # VASP reads the first letter: c, C, k, K select Cartesian
+        for ss in ((False, True) if cstyle in ('direct', 'Cartesian') else (True,)):
             cs.append(Case(f'poscar_{cstyle}{"_scale" if ss else ""}', h_poscar(cstyle, ss), bind=BIND, budget_s=120, timeout_ms=15000, descr=f'POSCAR, {cstyle} coordinates, {"symbolic scale factor" if ss else "scale 1"}'))
     return cs
